@@ -17,14 +17,22 @@ def _labels_ok_for_echo(labels):
 
 
 def fwd_causes(k, bind_port):
-    """ids of datagrams the server received from the local resolver (their relayed copies are not
-    messages composed by iodined)."""
-    s = set()
+    """Datagrams the server received from the local resolver, by datagram id (their relayed copies are not messages composed by
+    iodined)."""
+    s = {}
     if bind_port:
         for ev in k.log:
             if ev[1] == "recv" and ev[2] == "srv" and ev[3]["src"] == ("127.0.0.1", bind_port):
-                s.add(ev[3]["id"])
+                s[ev[3]["id"]] = ev[3]["data"]
     return s
+
+
+def relayed(kw, skip):
+    """A datagram iodined sent while the last thing it had received was a reply of the local DNS server, and that carries that
+    reply's bytes: the reply handed on.  (Anything else sent in the same turn of the main loop - an answer that was due on the
+    20 ms timer, say - is iodined's own.)"""
+    c = kw.get("cause")
+    return c in skip and skip[c] == kw["data"]
 
 
 def mon_c10(k, domain, server_ips, bind_port=None, ns_ip=None, wildcard=False, procs=None):
@@ -58,7 +66,7 @@ def mon_c10(k, domain, server_ips, bind_port=None, ns_ip=None, wildcard=False, p
         d = kw["data"]
         if _is_raw(d):
             continue
-        if who == "srv" and kw.get("cause") in skip:
+        if who == "srv" and relayed(kw, skip):
             continue
         is_srv = who == "srv"
         to_resolver = is_srv and ((bind_port and kw["dst"] == ("127.0.0.1", bind_port)) or kw["dst"] == ("208.67.222.222", 53))
@@ -288,7 +296,7 @@ def mon_c14(k, domain, bind_port=None, wildcard=False):
                     h.setdefault(hk, []).append(key)
         elif kind == "send":
             d = kw["data"]
-            if kw.get("cause") in skip and not (bind_port and kw["dst"] == ("127.0.0.1", bind_port)):
+            if relayed(kw, skip) and not (bind_port and kw["dst"] == ("127.0.0.1", bind_port)):
                 # a reply of the local DNS server handed on (-b): it goes to somebody who sent a query with that id (what it says
                 # is the local server's business, and how often it may be handed on is C20's)
                 stats["c14_relayed_replies"] = stats.get("c14_relayed_replies", 0) + 1
@@ -313,7 +321,7 @@ def mon_c14(k, domain, bind_port=None, wildcard=False):
                         viol.append(("C14:second-answer-by-relayed-reply", "a reply of the local DNS server was handed on to %s for id %d %r type %d, a query iodined had already answered itself"
                                      % (kw["dst"], rm.id, b".".join(rl)[:50], rt), {"time_us": ev[0], "datagram": d.hex()[:300]}))
                 continue
-            if _is_raw(d) or kw.get("cause") in skip or (bind_port and kw["dst"] == ("127.0.0.1", bind_port)):
+            if _is_raw(d) or relayed(kw, skip) or (bind_port and kw["dst"] == ("127.0.0.1", bind_port)):
                 continue
             try:
                 m = proto.parse_msg(d)
